@@ -190,3 +190,67 @@ Example d10_on_generated_code :
   option_map (fun st => (G_KeyVault_PublicKeys (S_ovm_Vault st), map G_PublicKeysChangeProposal_Result (S_ovm_Finished st)))
              (K_ovm_finishPubkeysChangeProposals (ovm_state [p1; p2] [] [0; 1; 2; 3] 200)) = Some ([8; 9; 10; 11], [1; 1]).
 Proof. vm_compute. reflexivity. Qed.
+
+(* ---- msg_server_vote.go VotePubkeysChange, generated over: does the ticket verify and under which key, the vote payload it carries, the key
+   vault, the active proposals.  It is the model's ovm_vote read on the active proposals: index in range, ticket of exactly the voting key,
+   vote yes or no, active proposal with that id, at most one vote per key, the vote appended. ------------------------------------------------- *)
+Definition vote_state (tok : bool) (tkey : Z) (pid vote : Z) (vault : list Z) (act : list proposal) : S_vote :=
+  {| S_vote_TicketOK := tok; S_vote_TicketKey := tkey;
+     S_vote_VotePayload := {| G_ProposalVotePayload_ProposalId := pid; G_ProposalVotePayload_Vote := vote |};
+     S_vote_Vault := kv_of vault; S_vote_VaultFound := true; S_vote_Active := map gprop_of act |}.
+Definition vmsg (creator ticket idx : Z) : G_MsgVotePubkeysChangeRequest :=
+  {| G_MsgVotePubkeysChangeRequest_Creator := creator; G_MsgVotePubkeysChangeRequest_Ticket := ticket; G_MsgVotePubkeysChangeRequest_VoterKeyIndex := idx |}.
+Definition with_vote (p : proposal) (key vote : Z) : proposal :=
+  {| pp_id := pp_id p; pp_creator := pp_creator p; pp_keys := pp_keys p; pp_leader := pp_leader p; pp_start := pp_start p;
+     pp_votes := pp_votes p ++ [(key, vote)]; pp_status := pp_status p; pp_result := pp_result p; pp_finish := pp_finish p |}.
+
+Lemma kupd_gprop (act : list proposal) q :
+  kupd (fun g => G_PublicKeysChangeProposal_Id g =? G_PublicKeysChangeProposal_Id (gprop_of q)) (gprop_of q) (map gprop_of act) =
+  map gprop_of (upd (fun x => pp_id x =? pp_id q) q act).
+Proof.
+  induction act as [|a r IH]; cbn [map kupd upd]; [reflexivity|]. cbn [gprop_of G_PublicKeysChangeProposal_Id].
+  destruct (pp_id a =? pp_id q); cbn [map]; [reflexivity|]. f_equal. exact IH.
+Qed.
+
+Lemma gen_vote tok tkey pid vote vault act creator ticket idx : 0 <= idx ->
+  K_vote_msgVotePubkeysChange (vote_state tok tkey pid vote vault act) (vmsg creator ticket idx) =
+  if zlen vault <=? idx then None else
+  let key := nth (Z.to_nat idx) vault (-1) in
+  if negb (tok && (tkey =? key)) then None
+  else if negb ((vote =? VOTE_YES) || (vote =? VOTE_NO)) then None
+  else match find (fun p => pp_id p =? pid) act with
+       | None => None
+       | Some p => if existsb (fun v => fst v =? key) (pp_votes p) then None
+                   else Some (vote_state tok tkey pid vote vault (upd (fun q => pp_id q =? pid) (with_vote p key vote) act))
+       end.
+Proof.
+  intros Hi. unfold K_vote_msgVotePubkeysChange, vote_state, vmsg.
+  cbn [S_vote_Vault S_vote_VaultFound S_vote_TicketOK S_vote_TicketKey S_vote_VotePayload S_vote_Active negb kv_of G_KeyVault_PublicKeys
+       G_MsgVotePubkeysChangeRequest_VoterKeyIndex].
+  unfold klen. fold (zlen vault). destruct (zlen vault <=? idx) eqn:EL; [reflexivity|]. apply Z.leb_gt in EL. cbv zeta.
+  assert (Ek : knth vault idx 0 = nth (Z.to_nat idx) vault (-1)).
+  { unfold knth. destruct (idx <? 0) eqn:E; [apply Z.ltb_lt in E; lia|]. apply nth_indep. unfold zlen in EL. lia. }
+  rewrite Ek. set (key := nth (Z.to_nat idx) vault (-1)).
+  destruct (tok && (tkey =? key)); cbn [negb]; [|reflexivity].
+  unfold K_ProposalVotePayload_Validate, VOTE_YES, VOTE_NO. cbn [G_ProposalVotePayload_Vote G_ProposalVotePayload_ProposalId].
+  destruct ((vote =? 2) || (vote =? 1)); cbn [negb]; [|reflexivity].
+  rewrite find_gprop. destruct (find (fun p => pp_id p =? pid) act) as [p|] eqn:EF; cbn [option_map negb]; [|reflexivity].
+  match goal with |- context [kfold _ _ ?f] => set (F := f) end. unfold kfold.
+  set (st0 := {| S_vote_TicketOK := tok; S_vote_TicketKey := tkey;
+                 S_vote_VotePayload := {| G_ProposalVotePayload_ProposalId := pid; G_ProposalVotePayload_Vote := vote |};
+                 S_vote_Vault := {| G_KeyVault_PublicKeys := vault |}; S_vote_VaultFound := true; S_vote_Active := map gprop_of act |}).
+  assert (Hstop : forall l s r, fold_left F l (s, r, true) = (s, r, true)).
+  { induction l as [|a l IH]; intros s r; cbn [fold_left]; [reflexivity|apply IH]. }
+  assert (Hrun : forall vs, fold_left F (map (fun v => {| G_Vote_PublicKey := fst v; G_Vote_Vote := snd v |}) vs) (st0, None, false) =
+            if existsb (fun v => fst v =? key) vs then (st0, Some None, true) else (st0, None, false)).
+  { induction vs as [|a l IH]; cbn [map fold_left existsb]; [reflexivity|].
+    unfold F at 2. cbv beta iota. cbn [G_Vote_PublicKey]. destruct (fst a =? key); cbn [orb]; [apply Hstop|exact IH]. }
+  replace (G_PublicKeysChangeProposal_Votes (gprop_of p)) with (map (fun v => {| G_Vote_PublicKey := fst v; G_Vote_Vote := snd v |}) (pp_votes p)) by reflexivity.
+  rewrite Hrun. destruct (existsb (fun v => fst v =? key) (pp_votes p)); [reflexivity|]. cbv iota beta.
+  assert (Eid : pp_id p = pid). { apply find_some in EF. destruct EF as [_ E]. apply Z.eqb_eq. exact E. }
+  assert (Ep' : set_G_PublicKeysChangeProposal_Votes (gprop_of p)
+                  (map (fun v => {| G_Vote_PublicKey := fst v; G_Vote_Vote := snd v |}) (pp_votes p) ++ [K__NewVote key vote]) = gprop_of (with_vote p key vote)).
+  { unfold with_vote, gprop_of, set_G_PublicKeysChangeProposal_Votes, K__NewVote. cbn. rewrite map_app. reflexivity. }
+  rewrite Ep'. subst st0. cbn [set_S_vote_Active S_vote_Active S_vote_TicketOK S_vote_TicketKey S_vote_VotePayload S_vote_Vault S_vote_VaultFound].
+  rewrite kupd_gprop. replace (pp_id (with_vote p key vote)) with pid by (cbn [with_vote pp_id]; symmetry; exact Eid). reflexivity.
+Qed.
